@@ -274,6 +274,11 @@ struct BigInt {
             --index;
             Add(DoubleSize<Number_T, TypeWidth()>::Multiply(storage_[index], multiplier), (index + 1U));
         } while (index != 0U);
+
+        // Multiplying by zero (or a small value into zeros) must not leave Index() pointing at zero words.
+        while ((index_ != 0U) && (storage_[index_] == 0)) {
+            --index_;
+        }
     }
     ////////////////////////////////////////////////////
     inline Number_T Divide(const Number_T divisor) noexcept {
